@@ -74,7 +74,18 @@ func indexOf(in ssa.Instruction) int {
 	return -1
 }
 
+// PathCountUntil is PathCountFrom where entering any block of `stop` also ends the path (reported as an
+// exit whose Instr is that block's first instruction). Used to analyse one iteration of a loop.
+func PathCountUntil(start ssa.Instruction, weight func(ssa.Instruction) Interval, stop map[*ssa.BasicBlock]bool) []Exit {
+	b := start.Block()
+	return pathCountFromStop(b.Parent(), b, indexOf(start), weight, stop)
+}
+
 func pathCountFrom(fn *ssa.Function, entry *ssa.BasicBlock, from int, weight func(ssa.Instruction) Interval) []Exit {
+	return pathCountFromStop(fn, entry, from, weight, nil)
+}
+
+func pathCountFromStop(fn *ssa.Function, entry *ssa.BasicBlock, from int, weight func(ssa.Instruction) Interval, stop map[*ssa.BasicBlock]bool) []Exit {
 	n := len(fn.Blocks)
 	// node n is a virtual node: the suffix of the entry block starting at instruction `from`.
 	w := make([]Interval, n+1)
@@ -92,12 +103,18 @@ func pathCountFrom(fn *ssa.Function, entry *ssa.BasicBlock, from int, weight fun
 	type edge struct{ from, to int }
 	var edges []edge
 	for _, b := range fn.Blocks {
+		if stop[b] {
+			continue // paths end on entering a stop block
+		}
 		for _, s := range b.Succs {
 			edges = append(edges, edge{b.Index, s.Index})
 		}
 	}
 	for _, s := range entry.Succs {
 		edges = append(edges, edge{n, s.Index})
+	}
+	for b := range stop {
+		w[b.Index] = Interval{}
 	}
 	const unreached = -1
 	lo := make([]int, n+1)
@@ -169,6 +186,12 @@ func pathCountFrom(fn *ssa.Function, entry *ssa.BasicBlock, from int, weight fun
 	}
 	addExit(entry, lo[n], hi[n])
 	for _, b := range fn.Blocks {
+		if stop[b] {
+			if lo[b.Index] != unreached && len(b.Instrs) > 0 {
+				exits = append(exits, Exit{Instr: b.Instrs[0], Count: Interval{lo[b.Index], hi[b.Index]}})
+			}
+			continue
+		}
 		addExit(b, lo[b.Index], hi[b.Index])
 	}
 	return exits
